@@ -72,6 +72,9 @@ P["C02"] = dict(
         "written for tuple i and all branch conditions depend only on loop invariants and tuple i (or satisfy the "
         "memo idiom key!=memo; memo:=key; initial NaN)",
         "R-COUNT-OR-NAN/additive: each iteration adds at most one to the success count",
+        "T-CONTAINER-DEFAULTS: the same tuple presented through any supported container yields the stored dimensions, "
+        "height 0 / epoch NaN or the adapter's fixed values",
+        "R-STACK-LOCAL: the pipeline stack is a fresh local per application",
     ],
     not_decided=["agreement of specialised container accessors with the trait defaults",
                  "bit-identity across containers (follows from determinism, not checked)"],
@@ -225,6 +228,35 @@ P["C13"] = dict(
     level="Decides the unit, false-origin, UTM-constant and alias conventions structurally on all paths; the "
           "numerical equivalences between parameterisations are not decided.",
     design_ref="DESIGN.md section 3, C13",
+)
+
+P["C19"] = dict(
+    claimed=True,
+    technique="static analysis: element-wise value-graph comparison of every CoordinateSet impl with the documented "
+              "defaults; dominance of dimension guards; sign-carrier rule for the sexagesimal conversions",
+    decides=["T-CONTAINER-DEFAULTS: every get_coord impl (2D/32-bit, 3D, 4D, height/epoch adapters) returns the stored "
+             "dimensions in order, height 0 and epoch NaN for missing ones, the adapter's fixed fields where supplied; "
+             "every set_coord stores exactly the stored dimensions in order",
+             "R-DIM-GUARD: in the CoordinateTuple defaults every *_nth_unchecked(k), k != 0, is dominated by k < dim()",
+             "R-SIGNUM-ZERO: no conversion takes the sign of a degree-minute-second sum from an integer signum()"],
+    not_decided=["numeric loss / rounding of the encodings", "normalisation ranges", "arithmetic operator impls"],
+    level="Decides the structural clauses of container and encoding consistency; rounding behaviour is not decided.",
+    design_ref="DESIGN.md section 3, C19",
+)
+P["C20"] = dict(
+    claimed=True,
+    technique="static analysis of bin kp's MIR: per-iteration typestate of the output loop, dominance of emptiness and "
+              "length guards, boolean abstract interpretation of the direction logic, error-propagation provenance",
+    decides=["R-ONE-LINE: the output loop visits all operands in order and prints exactly one line per tuple",
+             "R-EMPTY-INDEX: operands[0] is read only where the batch is known to be non-empty",
+             "R-KP-SLICE: the default-row tail slice starts within the row for any number of columns",
+             "R-KP-DIRECTION: --inv / --roundtrip select Fwd/Inv as documented; the reference copy precedes the first apply",
+             "R-KP-ERRORS: errors of ctx.op, ctx.apply, File::open reach main's Result through `?`",
+             "R-KP-DEFAULTS: missing height/time default to 0/NaN; -z/-t override elements 2/3"],
+    not_decided=["the printed digits (formatting, rounding, decimals/dimension per batch)", "comment/blank handling"],
+    level="Decides the structural clauses of kp (one line per tuple, direction, error propagation, no panic on empty / "
+          "wide input); what is printed is not decided.",
+    design_ref="DESIGN.md section 3, C20",
 )
 
 NA = {
